@@ -68,5 +68,11 @@ pub fn all() -> &'static BTreeMap<String, Finding> {
 }
 
 pub fn is_open(key: &str) -> bool {
+    // VERIF_IGNORE_KNOWN=all|key,key disables steering (used when validating that a finding still reproduces)
+    if let Ok(list) = std::env::var("VERIF_IGNORE_KNOWN") {
+        if list == "all" || list.split(',').any(|k| k == key) {
+            return false;
+        }
+    }
     all().get(key).is_some_and(|f| f.open)
 }
